@@ -8,7 +8,7 @@ import ast
 from .. import symex
 from .. import core
 from ..core import (AnalysisError, short, unparse, iter_own, call_name, call_recv, kwarg,
-                    is_self_attr, atomic_facts, parents, enclosing_stmt, const_value)
+                    is_self_attr, atomic_facts, parents, enclosing_stmt, const_value, enclosing_func)
 from .. import tables
 
 L2T = 'pylatexenc.latex2text'
@@ -430,6 +430,51 @@ def run(ctx):
                         'emits them)' % (short(call_, 60), nm_, i_ + 1, callee_, nm_, j_ + 1),
                         construct='%s: argument %s' % (short(call_, 40), nm_))
     ctx.holds('R12m', m, None, 'no positional argument named like another parameter of its callee', construct='argument order scan',
+              trivial=True)
+
+    # ---- R12o: content is rendered by the converter, not read off the nodes
+    ctx.rule('R12o', 'latex2text turns node content into text through the converter\'s *_to_text methods only: '
+                     'get_content_as_chars() skips comment nodes without asking keep_comments (and knows nothing of math_mode or '
+                     'discard), so a fast path through it loses the comments inside that content', 0)
+    n_gc = 0
+    for mod_ in sorted(repo.modules.values(), key=lambda m_: m_.name):
+        if not mod_.name.startswith('pylatexenc.latex2text') or mod_.name.endswith('__main__'):
+            continue
+        for c_ in ast.walk(mod_.tree):
+            if isinstance(c_, ast.Call) and call_name(c_) == 'get_content_as_chars':
+                n_gc += 1
+                fq_ = enclosing_func(c_)
+                ctx.refuted('R12o', mod_, c_, '%s takes the text of %s with get_content_as_chars(): comment nodes in it are '
+                            'dropped whatever keep_comments says (`\\item[a %% note` + newline + `]` loses the note), and nothing '
+                            'in it goes through the math_mode / discard gates'
+                            % (getattr(fq_, 'name', '<module>'), short(call_recv(c_), 40) if call_recv(c_) is not None else '?'),
+                            construct='%s: get_content_as_chars' % getattr(fq_, 'name', '<module>'))
+    ctx.holds('R12o', m, None, 'no get_content_as_chars() in latex2text', construct='content shortcut scan', trivial=True)
+
+    # ---- R12n: what one converter looked up is not what another one uses
+    ctx.rule('R12n', 'no class of latex2text keeps a mutable container at class level that its methods fill through self '
+                     'without ever re-binding it per instance: a specification remembered per macro name by one converter '
+                     '(discard or not, which replacement) is not used by a converter with another context '
+                     '(grules.shared_class_containers; exercised on a built-in example on every run)', 0)
+    from .. import grules as _gr3
+    from ..core import set_parents as _sp3
+    ex3 = ast.parse('class K:\n _memo = {}\n def get(self, k):\n  if k not in self._memo:\n   self._memo[k] = self.ctx.look(k)\n  return self._memo[k]\n')
+    _sp3(ex3)
+    if len(list(_gr3.shared_class_containers(ex3.body[0]))) != 1:
+        raise AnalysisError('R12n: the rule no longer fires on its built-in example')
+    n_sc = 0
+    for mod_ in sorted(repo.modules.values(), key=lambda m_: m_.name):
+        if not mod_.name.startswith('pylatexenc.latex2text'):
+            continue
+        for q_, c_ in sorted(mod_.classes.items()):
+            for n_, a_, st_ in _gr3.shared_class_containers(c_):
+                n_sc += 1
+                ctx.refuted('R12n', mod_, n_, '%s.%s is one container for the whole class (bound in the class body at line %d, '
+                            'never re-bound on an instance) and is filled through self at line %d: what one converter stored '
+                            '-- the text specification found for a macro in ITS context -- is what every other converter gets, '
+                            'so a context that declares the macro discarded is ignored and the content appears'
+                            % (q_, a_, st_.lineno, n_.lineno), construct='%s.%s: class-level container' % (q_, a_))
+    ctx.holds('R12n', m, None, 'no class-level container of latex2text is filled through self', construct='class-level container scan',
               trivial=True)
 
     return 'other', (
